@@ -1,1 +1,337 @@
-//! oracle for camellia — to be written from the specification
+//! Camellia (RFC 3713), written from the RFC's description.
+//! SBOX1 is data of the RFC (no generating formula is given there; table copied from the repository's
+//! camellia/src/consts.rs, which prints the same 256 bytes as RFC 3713 2.4.2 -- validated through the NESSIE and RFC
+//! vectors).  SBOX2..4 are *derived* as the RFC defines them:
+//!   SBOX2[x] = SBOX1[x] <<< 1,  SBOX3[x] = SBOX1[x] <<< 7,  SBOX4[x] = SBOX1[x <<< 1].
+//! Sigma1..6 are data of the RFC.
+//!
+//! Structure on purpose different from the repository: F computes t1..t8 / y1..y8 byte by byte (no multiplication
+//! trick), FL / FLINV work on 4-byte strings with a byte-wise one-bit rotation, the key schedule rotates genuine
+//! 128-bit values KL, KR, KA, KB and cuts the halves exactly as "(KL <<< 15) >> 64" etc. in RFC 3713 2.2,
+//! subkeys carry the RFC's names kw1..4, k1..24, ke1..6; decryption swaps the subkeys as in 2.3.3.
+//!
+//! Leaf exposed as a generic parameter: f(F_IN, KE) -> F_OUT (camellia/src/utils.rs `f`).
+
+pub static SBOX1: [u8; 256] = [
+    0x70, 0x82, 0x2c, 0xec, 0xb3, 0x27, 0xc0, 0xe5, 0xe4, 0x85, 0x57, 0x35, 0xea, 0x0c, 0xae, 0x41,
+    0x23, 0xef, 0x6b, 0x93, 0x45, 0x19, 0xa5, 0x21, 0xed, 0x0e, 0x4f, 0x4e, 0x1d, 0x65, 0x92, 0xbd,
+    0x86, 0xb8, 0xaf, 0x8f, 0x7c, 0xeb, 0x1f, 0xce, 0x3e, 0x30, 0xdc, 0x5f, 0x5e, 0xc5, 0x0b, 0x1a,
+    0xa6, 0xe1, 0x39, 0xca, 0xd5, 0x47, 0x5d, 0x3d, 0xd9, 0x01, 0x5a, 0xd6, 0x51, 0x56, 0x6c, 0x4d,
+    0x8b, 0x0d, 0x9a, 0x66, 0xfb, 0xcc, 0xb0, 0x2d, 0x74, 0x12, 0x2b, 0x20, 0xf0, 0xb1, 0x84, 0x99,
+    0xdf, 0x4c, 0xcb, 0xc2, 0x34, 0x7e, 0x76, 0x05, 0x6d, 0xb7, 0xa9, 0x31, 0xd1, 0x17, 0x04, 0xd7,
+    0x14, 0x58, 0x3a, 0x61, 0xde, 0x1b, 0x11, 0x1c, 0x32, 0x0f, 0x9c, 0x16, 0x53, 0x18, 0xf2, 0x22,
+    0xfe, 0x44, 0xcf, 0xb2, 0xc3, 0xb5, 0x7a, 0x91, 0x24, 0x08, 0xe8, 0xa8, 0x60, 0xfc, 0x69, 0x50,
+    0xaa, 0xd0, 0xa0, 0x7d, 0xa1, 0x89, 0x62, 0x97, 0x54, 0x5b, 0x1e, 0x95, 0xe0, 0xff, 0x64, 0xd2,
+    0x10, 0xc4, 0x00, 0x48, 0xa3, 0xf7, 0x75, 0xdb, 0x8a, 0x03, 0xe6, 0xda, 0x09, 0x3f, 0xdd, 0x94,
+    0x87, 0x5c, 0x83, 0x02, 0xcd, 0x4a, 0x90, 0x33, 0x73, 0x67, 0xf6, 0xf3, 0x9d, 0x7f, 0xbf, 0xe2,
+    0x52, 0x9b, 0xd8, 0x26, 0xc8, 0x37, 0xc6, 0x3b, 0x81, 0x96, 0x6f, 0x4b, 0x13, 0xbe, 0x63, 0x2e,
+    0xe9, 0x79, 0xa7, 0x8c, 0x9f, 0x6e, 0xbc, 0x8e, 0x29, 0xf5, 0xf9, 0xb6, 0x2f, 0xfd, 0xb4, 0x59,
+    0x78, 0x98, 0x06, 0x6a, 0xe7, 0x46, 0x71, 0xba, 0xd4, 0x25, 0xab, 0x42, 0x88, 0xa2, 0x8d, 0xfa,
+    0x72, 0x07, 0xb9, 0x55, 0xf8, 0xee, 0xac, 0x0a, 0x36, 0x49, 0x2a, 0x68, 0x3c, 0x38, 0xf1, 0xa4,
+    0x40, 0x28, 0xd3, 0x7b, 0xbb, 0xc9, 0x43, 0xc1, 0x15, 0xe3, 0xad, 0xf4, 0x77, 0xc7, 0x80, 0x9e,
+];
+
+pub const SIGMA: [u64; 6] = [
+    0xA09E667F3BCC908B,
+    0xB67AE8584CAA73B2,
+    0xC6EF372FE94F82BE,
+    0x54FF53A5F1D36F1C,
+    0x10E527FADE682D1D,
+    0xB05688C2B3E6C1FD,
+];
+
+pub fn sbox1(x: u8) -> u8 {
+    SBOX1[x as usize]
+}
+pub fn sbox2(x: u8) -> u8 {
+    sbox1(x).rotate_left(1)
+}
+pub fn sbox3(x: u8) -> u8 {
+    sbox1(x).rotate_left(7)
+}
+pub fn sbox4(x: u8) -> u8 {
+    sbox1(x.rotate_left(1))
+}
+
+/// F-function, RFC 3713 2.4.1.
+pub fn f(f_in: u64, ke: u64) -> u64 {
+    let x = (f_in ^ ke).to_be_bytes();
+    let t1 = sbox1(x[0]);
+    let t2 = sbox2(x[1]);
+    let t3 = sbox3(x[2]);
+    let t4 = sbox4(x[3]);
+    let t5 = sbox2(x[4]);
+    let t6 = sbox3(x[5]);
+    let t7 = sbox4(x[6]);
+    let t8 = sbox1(x[7]);
+    let y1 = t1 ^ t3 ^ t4 ^ t6 ^ t7 ^ t8;
+    let y2 = t1 ^ t2 ^ t4 ^ t5 ^ t7 ^ t8;
+    let y3 = t1 ^ t2 ^ t3 ^ t5 ^ t6 ^ t8;
+    let y4 = t2 ^ t3 ^ t4 ^ t5 ^ t6 ^ t7;
+    let y5 = t1 ^ t2 ^ t6 ^ t7 ^ t8;
+    let y6 = t2 ^ t3 ^ t5 ^ t7 ^ t8;
+    let y7 = t3 ^ t4 ^ t5 ^ t6 ^ t8;
+    let y8 = t1 ^ t4 ^ t5 ^ t6 ^ t7;
+    u64::from_be_bytes([y1, y2, y3, y4, y5, y6, y7, y8])
+}
+
+type B4 = [u8; 4];
+fn rol1_4(x: &B4) -> B4 {
+    [
+        (x[0] << 1) | (x[1] >> 7),
+        (x[1] << 1) | (x[2] >> 7),
+        (x[2] << 1) | (x[3] >> 7),
+        (x[3] << 1) | (x[0] >> 7),
+    ]
+}
+fn and4(p: &B4, q: &B4) -> B4 {
+    [p[0] & q[0], p[1] & q[1], p[2] & q[2], p[3] & q[3]]
+}
+fn or4(p: &B4, q: &B4) -> B4 {
+    [p[0] | q[0], p[1] | q[1], p[2] | q[2], p[3] | q[3]]
+}
+fn xor4(p: &B4, q: &B4) -> B4 {
+    [p[0] ^ q[0], p[1] ^ q[1], p[2] ^ q[2], p[3] ^ q[3]]
+}
+fn halves(v: u64) -> (B4, B4) {
+    let b = v.to_be_bytes();
+    ([b[0], b[1], b[2], b[3]], [b[4], b[5], b[6], b[7]])
+}
+fn join(l: &B4, r: &B4) -> u64 {
+    u64::from_be_bytes([l[0], l[1], l[2], l[3], r[0], r[1], r[2], r[3]])
+}
+
+/// FL: x2 ^= (x1 & k1) <<< 1;  x1 ^= (x2 | k2)
+pub fn fl(fl_in: u64, ke: u64) -> u64 {
+    let (x1, x2) = halves(fl_in);
+    let (k1, k2) = halves(ke);
+    let x2 = xor4(&x2, &rol1_4(&and4(&x1, &k1)));
+    let x1 = xor4(&x1, &or4(&x2, &k2));
+    join(&x1, &x2)
+}
+/// FLINV: y1 ^= (y2 | k2);  y2 ^= (y1 & k1) <<< 1
+pub fn flinv(flinv_in: u64, ke: u64) -> u64 {
+    let (y1, y2) = halves(flinv_in);
+    let (k1, k2) = halves(ke);
+    let y1 = xor4(&y1, &or4(&y2, &k2));
+    let y2 = xor4(&y2, &rol1_4(&and4(&y1, &k1)));
+    join(&y1, &y2)
+}
+
+/// Subkeys with the RFC's names; nk = 18 (128-bit keys: ke1..4) or 24 (192/256-bit keys: ke1..6).
+#[derive(Clone, Copy)]
+pub struct Subkeys {
+    pub kw: [u64; 4],
+    pub k: [u64; 24],
+    pub ke: [u64; 6],
+    pub nk: usize,
+}
+
+fn hi(v: u128) -> u64 {
+    (v >> 64) as u64
+}
+fn lo(v: u128) -> u64 {
+    (v & 0xFFFF_FFFF_FFFF_FFFF) as u64
+}
+
+/// KA from (KL, KR), RFC 3713 2.2.
+pub fn ka_with<F: Fn(u64, u64) -> u64>(kl: u128, kr: u128, f: &F) -> u128 {
+    let mut d1 = hi(kl ^ kr);
+    let mut d2 = lo(kl ^ kr);
+    d2 ^= f(d1, SIGMA[0]);
+    d1 ^= f(d2, SIGMA[1]);
+    d1 ^= hi(kl);
+    d2 ^= lo(kl);
+    d2 ^= f(d1, SIGMA[2]);
+    d1 ^= f(d2, SIGMA[3]);
+    ((d1 as u128) << 64) | d2 as u128
+}
+/// KB from (KA, KR) (192/256-bit keys only).
+pub fn kb_with<F: Fn(u64, u64) -> u64>(ka: u128, kr: u128, f: &F) -> u128 {
+    let mut d1 = hi(ka ^ kr);
+    let mut d2 = lo(ka ^ kr);
+    d2 ^= f(d1, SIGMA[4]);
+    d1 ^= f(d2, SIGMA[5]);
+    ((d1 as u128) << 64) | d2 as u128
+}
+
+/// Subkey table for 128-bit keys.
+pub fn subkeys128(kl: u128, ka: u128) -> Subkeys {
+    let r = |v: u128, n: u32| v.rotate_left(n);
+    let mut s = Subkeys { kw: [0; 4], k: [0; 24], ke: [0; 6], nk: 18 };
+    s.kw[0] = hi(r(kl, 0));
+    s.kw[1] = lo(r(kl, 0));
+    s.k[0] = hi(r(ka, 0));
+    s.k[1] = lo(r(ka, 0));
+    s.k[2] = hi(r(kl, 15));
+    s.k[3] = lo(r(kl, 15));
+    s.k[4] = hi(r(ka, 15));
+    s.k[5] = lo(r(ka, 15));
+    s.ke[0] = hi(r(ka, 30));
+    s.ke[1] = lo(r(ka, 30));
+    s.k[6] = hi(r(kl, 45));
+    s.k[7] = lo(r(kl, 45));
+    s.k[8] = hi(r(ka, 45));
+    s.k[9] = lo(r(kl, 60));
+    s.k[10] = hi(r(ka, 60));
+    s.k[11] = lo(r(ka, 60));
+    s.ke[2] = hi(r(kl, 77));
+    s.ke[3] = lo(r(kl, 77));
+    s.k[12] = hi(r(kl, 94));
+    s.k[13] = lo(r(kl, 94));
+    s.k[14] = hi(r(ka, 94));
+    s.k[15] = lo(r(ka, 94));
+    s.k[16] = hi(r(kl, 111));
+    s.k[17] = lo(r(kl, 111));
+    s.kw[2] = hi(r(ka, 111));
+    s.kw[3] = lo(r(ka, 111));
+    s
+}
+/// Subkey table for 192- and 256-bit keys.
+pub fn subkeys256(kl: u128, kr: u128, ka: u128, kb: u128) -> Subkeys {
+    let r = |v: u128, n: u32| v.rotate_left(n);
+    let mut s = Subkeys { kw: [0; 4], k: [0; 24], ke: [0; 6], nk: 24 };
+    s.kw[0] = hi(r(kl, 0));
+    s.kw[1] = lo(r(kl, 0));
+    s.k[0] = hi(r(kb, 0));
+    s.k[1] = lo(r(kb, 0));
+    s.k[2] = hi(r(kr, 15));
+    s.k[3] = lo(r(kr, 15));
+    s.k[4] = hi(r(ka, 15));
+    s.k[5] = lo(r(ka, 15));
+    s.ke[0] = hi(r(kr, 30));
+    s.ke[1] = lo(r(kr, 30));
+    s.k[6] = hi(r(kb, 30));
+    s.k[7] = lo(r(kb, 30));
+    s.k[8] = hi(r(kl, 45));
+    s.k[9] = lo(r(kl, 45));
+    s.k[10] = hi(r(ka, 45));
+    s.k[11] = lo(r(ka, 45));
+    s.ke[2] = hi(r(kl, 60));
+    s.ke[3] = lo(r(kl, 60));
+    s.k[12] = hi(r(kr, 60));
+    s.k[13] = lo(r(kr, 60));
+    s.k[14] = hi(r(kb, 60));
+    s.k[15] = lo(r(kb, 60));
+    s.k[16] = hi(r(kl, 77));
+    s.k[17] = lo(r(kl, 77));
+    s.ke[4] = hi(r(ka, 77));
+    s.ke[5] = lo(r(ka, 77));
+    s.k[18] = hi(r(kr, 94));
+    s.k[19] = lo(r(kr, 94));
+    s.k[20] = hi(r(ka, 94));
+    s.k[21] = lo(r(ka, 94));
+    s.k[22] = hi(r(kl, 111));
+    s.k[23] = lo(r(kl, 111));
+    s.kw[2] = hi(r(kb, 111));
+    s.kw[3] = lo(r(kb, 111));
+    s
+}
+
+/// (KL, KR) from a 16/24/32-byte key: 128: KR = 0; 192: KR = K[128..192] || ~K[128..192]; 256: KR = K[128..256].
+pub fn kl_kr(key: &[u8]) -> (u128, u128) {
+    let mut kl = 0u128;
+    let mut i = 0;
+    while i < 16 {
+        kl = (kl << 8) | key[i] as u128;
+        i += 1;
+    }
+    let mut kr = 0u128;
+    if key.len() == 24 {
+        let mut h = 0u64;
+        while i < 24 {
+            h = (h << 8) | key[i] as u64;
+            i += 1;
+        }
+        kr = ((h as u128) << 64) | (!h) as u128;
+    } else if key.len() == 32 {
+        while i < 32 {
+            kr = (kr << 8) | key[i] as u128;
+            i += 1;
+        }
+    }
+    (kl, kr)
+}
+
+pub fn key_schedule_with<F: Fn(u64, u64) -> u64>(key: &[u8], f: &F) -> Subkeys {
+    let (kl, kr) = kl_kr(key);
+    let ka = ka_with(kl, kr, f);
+    if key.len() == 16 {
+        subkeys128(kl, ka)
+    } else {
+        let kb = kb_with(ka, kr, f);
+        subkeys256(kl, kr, ka, kb)
+    }
+}
+
+/// Decryption subkeys (RFC 3713 2.3.3): kw1<->kw3, kw2<->kw4, k_i <-> k_{nk+1-i}, ke_i <-> ke_{ne+1-i}.
+pub fn reverse(s: &Subkeys) -> Subkeys {
+    let ne = if s.nk == 18 { 4 } else { 6 };
+    let mut d = Subkeys { kw: [s.kw[2], s.kw[3], s.kw[0], s.kw[1]], k: [0; 24], ke: [0; 6], nk: s.nk };
+    let mut i = 0;
+    while i < s.nk {
+        d.k[i] = s.k[s.nk - 1 - i];
+        i += 1;
+    }
+    i = 0;
+    while i < ne {
+        d.ke[i] = s.ke[ne - 1 - i];
+        i += 1;
+    }
+    d
+}
+
+/// Data randomization (RFC 3713 2.3.1 / 2.3.2): prewhitening, nk Feistel rounds with an FL/FLINV layer after every
+/// sixth round except the last, postwhitening, final swap.
+pub fn crypt_with<F: Fn(u64, u64) -> u64>(s: &Subkeys, block: &[u8; 16], f: &F) -> [u8; 16] {
+    let m = u128::from_be_bytes(*block);
+    let mut d1 = hi(m);
+    let mut d2 = lo(m);
+    d1 ^= s.kw[0];
+    d2 ^= s.kw[1];
+    let mut r = 0;
+    while r < s.nk {
+        d2 ^= f(d1, s.k[r]);
+        d1 ^= f(d2, s.k[r + 1]);
+        r += 2;
+        if r % 6 == 0 && r != s.nk {
+            let j = r / 6 - 1;
+            d1 = fl(d1, s.ke[2 * j]);
+            d2 = flinv(d2, s.ke[2 * j + 1]);
+        }
+    }
+    d2 ^= s.kw[2];
+    d1 ^= s.kw[3];
+    ((((d2 as u128) << 64) | d1 as u128)).to_be_bytes()
+}
+
+pub fn encrypt_with<F: Fn(u64, u64) -> u64>(key: &[u8], block: &[u8; 16], f: &F) -> [u8; 16] {
+    crypt_with(&key_schedule_with(key, f), block, f)
+}
+pub fn decrypt_with<F: Fn(u64, u64) -> u64>(key: &[u8], block: &[u8; 16], f: &F) -> [u8; 16] {
+    crypt_with(&reverse(&key_schedule_with(key, f)), block, f)
+}
+pub fn encrypt(key: &[u8], block: &[u8; 16]) -> [u8; 16] {
+    encrypt_with(key, block, &f)
+}
+pub fn decrypt(key: &[u8], block: &[u8; 16]) -> [u8; 16] {
+    decrypt_with(key, block, &f)
+}
+pub fn encrypt128(key: &[u8; 16], block: &[u8; 16]) -> [u8; 16] {
+    encrypt(key, block)
+}
+pub fn decrypt128(key: &[u8; 16], block: &[u8; 16]) -> [u8; 16] {
+    decrypt(key, block)
+}
+pub fn encrypt192(key: &[u8; 24], block: &[u8; 16]) -> [u8; 16] {
+    encrypt(key, block)
+}
+pub fn decrypt192(key: &[u8; 24], block: &[u8; 16]) -> [u8; 16] {
+    decrypt(key, block)
+}
+pub fn encrypt256(key: &[u8; 32], block: &[u8; 16]) -> [u8; 16] {
+    encrypt(key, block)
+}
+pub fn decrypt256(key: &[u8; 32], block: &[u8; 16]) -> [u8; 16] {
+    decrypt(key, block)
+}
